@@ -16,6 +16,9 @@ import (
 type vlSession struct {
 	Version int `json:"version"` // -1: a build that predates version tracking
 	Blocks  int `json:"blocks"`
+	// Force: the operator starts this (tracking) build with the hard-fork check disabled
+	// (--no-hf); it opens whatever the database holds and records its own version for what it syncs
+	Force bool `json:"force,omitempty"`
 }
 
 type vlCase struct {
@@ -86,11 +89,22 @@ func runVersionLock(c vlCase, classes map[string]bool) string {
 				db.Close()
 			}
 		}
-		n, err := OpenNode(dir+"/db", era, chain, NodeOpts{NoHFCheck: legacy})
-		if !legacy {
+		n, err := OpenNode(dir+"/db", era, chain, NodeOpts{NoHFCheck: legacy || s.Force})
+		if s.Force && !legacy {
+			if err != nil {
+				return "harness: forced session could not open: " + err.Error()
+			}
+			classes["forced-start"] = true
+		} else if !legacy {
 			want, why := refRefuse(ver, forks, s.Version)
 			got := err != nil
-			if got && !want && deviates("C19/fork-below-start") && si >= 1 {
+			tracked := false
+			for _, v := range ver {
+				if v >= 0 {
+					tracked = true
+				}
+			}
+			if got && !want && deviates("C19/fork-below-start") && tracked {
 				// registered finding, exactly: a false refusal at a later start when a fork with a real
 				// minimum lies at or below the first synced height - 1. Any other disagreement is new.
 				for _, f := range c.Forks {
@@ -107,8 +121,9 @@ func runVersionLock(c vlCase, classes map[string]bool) string {
 				return fmt.Sprintf("session %d (build %d) was refused (%v) although every synced height has an adequate version %v; case=%+v", si, s.Version, err, sortedVer(ver), c)
 			}
 			if got {
+				// a refused start does nothing; the history goes on with the next session
 				classes["refused"] = true
-				return ""
+				continue
 			}
 			classes["accepted"] = true
 		} else if err != nil {
@@ -186,6 +201,7 @@ func genVLCase(t *rapid.T) vlCase {
 			s.Version = -1
 		} else {
 			s.Version = rapid.IntRange(0, 4).Draw(t, "version")
+			s.Force = rapid.IntRange(0, 5).Draw(t, "force") == 0
 		}
 		total += s.Blocks
 		c.Sessions = append(c.Sessions, s)
@@ -259,25 +275,35 @@ func TestC19(t *testing.T) {
 			}
 		})
 	})
-	if tier() == "thorough" && (os.Getenv("VERIF_SHARD") == "" || os.Getenv("VERIF_SHARD") == "0") {
-		// small scope, exhaustively (one shard does it; the others only run the random part): <= 3 sessions x <= 3 blocks x versions 0..2 (first may be legacy) x <= 1 fork
+	if tier() == "thorough" {
+		// small scope, exhaustively, split over the shards by history index: <= 3 sessions x <= 2 blocks x
+		// versions 0..2 (first may predate tracking; tracking builds also with the check disabled) x <= 1 fork
+		shard, nshards := 0, 1
+		fmt.Sscan(os.Getenv("VERIF_SHARD"), &shard)
+		fmt.Sscan(os.Getenv("VERIF_NSHARDS"), &nshards)
+		if nshards < 1 {
+			nshards = 1
+		}
 		t.Run("small-scope", func(t *testing.T) {
-			count := 0
+			count, hist := 0, 0
 			var rec func(c vlCase, depth int)
 			versions := []int{-1, 0, 1, 2}
 			rec = func(c vlCase, depth int) {
 				if depth > 0 {
-					tot := 0
-					for _, s := range c.Sessions {
-						tot += s.Blocks
-					}
-					for fo := -1; fo <= tot+1; fo++ {
-						for mv := 0; mv <= 2; mv++ {
-							cc := c
-							cc.Forks = []Fork{{Height: uint32(int(c.Start) + fo), MinVer: mv}}
-							count++
-							if msg := run(cc); msg != "" {
-								fail(st, t, msg, cc)
+					hist++
+					if hist%nshards == shard%nshards {
+						tot := 0
+						for _, s := range c.Sessions {
+							tot += s.Blocks
+						}
+						for fo := -1; fo <= tot+1; fo++ {
+							for mv := 0; mv <= 2; mv++ {
+								cc := c
+								cc.Forks = []Fork{{Height: uint32(int(c.Start) + fo), MinVer: mv}}
+								count++
+								if msg := run(cc); msg != "" {
+									fail(st, t, msg, cc)
+								}
 							}
 						}
 					}
@@ -289,10 +315,15 @@ func TestC19(t *testing.T) {
 					if v < 0 && depth > 0 {
 						continue
 					}
-					for b := 0; b <= 3; b++ {
-						nc := c
-						nc.Sessions = append(append([]vlSession(nil), c.Sessions...), vlSession{Version: v, Blocks: b})
-						rec(nc, depth+1)
+					for _, force := range []bool{false, true} {
+						if force && v < 0 {
+							continue
+						}
+						for b := 0; b <= 2; b++ {
+							nc := c
+							nc.Sessions = append(append([]vlSession(nil), c.Sessions...), vlSession{Version: v, Blocks: b, Force: force})
+							rec(nc, depth+1)
+						}
 					}
 				}
 			}
@@ -305,14 +336,14 @@ func TestC19(t *testing.T) {
 
 func init() {
 	RegisterProbe("C19/fork-below-start", func() (bool, string, interface{}) {
-		c := vlCase{Start: 50, Forks: []Fork{{Height: 48, MinVer: 1}}, Sessions: []vlSession{{1, 3}, {1, 2}, {1, 0}}}
+		c := vlCase{Start: 50, Forks: []Fork{{Height: 48, MinVer: 1}}, Sessions: []vlSession{{Version: 1, Blocks: 3}, {Version: 1, Blocks: 2}, {Version: 1, Blocks: 0}}}
 		ModelStrict = true
 		defer func() { ModelStrict = false }()
 		msg := runVersionLock(c, map[string]bool{})
 		return msg != "", msg, c
 	})
 	RegisterProbe("C19/legacy-at-fork-height", func() (bool, string, interface{}) {
-		c := vlCase{Start: 50, Forks: []Fork{{Height: 53, MinVer: 1}}, Sessions: []vlSession{{-1, 3}, {1, 2}, {1, 0}}}
+		c := vlCase{Start: 50, Forks: []Fork{{Height: 53, MinVer: 1}}, Sessions: []vlSession{{Version: -1, Blocks: 3}, {Version: 1, Blocks: 2}, {Version: 1, Blocks: 0}}}
 		msg := runVersionLock(c, map[string]bool{})
 		return msg != "", msg, c
 	})
